@@ -1317,6 +1317,10 @@ func (m *Manager) updateV2TransactionProofs(txns []types.V2Transaction, from, to
 	basisState, ok := m.store.State(from.ID)
 	if !ok {
 		return nil, fmt.Errorf("couldn't find state for basis %v", from)
+	} else if from != (types.ChainIndex{}) && basisState.Index != from {
+		// a known block id at a height it does not have is not a known index
+		// (the path computation below trusts the height)
+		return nil, fmt.Errorf("basis %v does not match the stored index %v", from, basisState.Index)
 	}
 	for _, txn := range txns {
 		if err := basisState.Elements.ValidateTransactionElements(txn); err != nil {
